@@ -224,7 +224,9 @@ other("C13", "criteria.validity_mask (flags of a pixel depend on its column, the
       "makes each cost a function of the samples inside the pixel's window box only; dependency cone / crop independence of whole "
       "pipelines, float accumulation order:",
       trusted=["assumed contracts on np.argmin/np.argmax/np.array_split/np.nanmedian/as_strided as listed under C03 and C10"])
-other("C15", "frames proved: FixedZoomPyramid.disparity_range, prepare_pyramid and fill_nodata_image leave the images and the "
+other("C15", "read_multiscale_params proved per configuration structure (4 cases): the number of scales and the scale factor are those of "
+      "the first pipeline step named multiscale or multiscale.<suffix>, and (1, 1) when there is none (the suffix-only case is the "
+      "defect a62df76 repaired: multiscale never ran); frames proved: FixedZoomPyramid.disparity_range, prepare_pyramid and fill_nodata_image leave the images and the "
       "coarser disparity dataset untouched; run_multiscale only rebinds the machine's fields and pops its own pyramids ("
       + FRAME_NOTE + "); scale schedule and interval propagation:", trusted=FRAME_TRUSTED)
 other("C16", "img_tools.get_window (ROI window clipped to the image, first/last row and column included) proved for all inputs; "
